@@ -654,22 +654,62 @@ func ruleC08X4(r *Run) {
 					okCtx = true
 				}
 			}
-			if cal != nil && cal.Blocks != nil && j < len(cal.Params) {
-				prm := cal.Params[j]
-				allInstrs(cal, func(x ssa.Instruction) {
-					if !isCallNamed(x, "context.AfterFunc") {
-						return
-					}
-					args := instrCall(x).Args
-					if len(args) < 2 || canonVal(args[0]) != ssa.Value(prm) {
-						return
-					}
-					if f := closureOf(args[1]); f != nil && (p.reachesCall(f, 1, "/transport.Transport.Close", "/transport.Closer.Close", "/transport.ReadWriter.Close") || len(callsTo(f, false, func(o *types.Func, _ *ssa.CallCommon) bool { return o.Name() == "Close" })) > 0) {
-						okStop = true
-					}
-				})
+			if cal != nil && cal.Blocks != nil && j < len(cal.Params) && stopsOnDone(p, cal, j, 0) {
+				okStop = true
 			}
 		}
 		r.Check(fmt.Sprintf("%s dial#%d can be interrupted", name, i+1), okCtx && okStop, posOf(p, d), name, fmt.Sprintf("the dial is handed reconnect's context: %v; the callee closes the transport when that context ends: %v. wire.Connect waits for the ConnectResponse without a bound; with the connection mutex held across the dial, Close(ctx) waits for a silent broker whatever its context", okCtx, okStop))
 	}
+}
+
+// stopsOnDone: fn registers, for the context it receives as parameter idx, a context.AfterFunc whose function closes a
+// transport — itself, in one of its function literals, or in a function it hands that context on to (depth 2: the
+// redial loop moved into a helper that calls connectWire(ctx)).
+func stopsOnDone(p *Prog, fn *ssa.Function, idx, depth int) bool {
+	if fn == nil || fn.Blocks == nil || idx >= len(fn.Params) || depth > 2 {
+		return false
+	}
+	prm := ssa.Value(fn.Params[idx])
+	fromPrm := func(v ssa.Value) bool {
+		for _, rt := range ctxRoots(v) {
+			c := canonVal(rt)
+			if c == prm {
+				return true
+			}
+			if fv, isFV := c.(*ssa.FreeVar); isFV {
+				if b, ok := theClosures.bind[fv]; ok && canonVal(b) == prm {
+					return true
+				}
+				if fv.Name() == fn.Params[idx].Name() && topFunc(fv.Parent()) == fn {
+					return true
+				}
+			}
+		}
+		return false
+	}
+	found := false
+	withAnon(fn, func(g *ssa.Function) {
+		allInstrs(g, func(x ssa.Instruction) {
+			cc := instrCall(x)
+			if cc == nil || found {
+				return
+			}
+			if isCallNamed(x, "context.AfterFunc") && len(cc.Args) >= 2 && fromPrm(cc.Args[0]) {
+				if f := closureOf(cc.Args[1]); f != nil && len(callsTo(f, false, func(o *types.Func, _ *ssa.CallCommon) bool { return o.Name() == "Close" })) > 0 {
+					found = true
+				}
+				return
+			}
+			cal := cc.StaticCallee()
+			if cal == nil || !p.Analysed(cal) {
+				return
+			}
+			for j, a := range cc.Args {
+				if isContextType(a.Type()) && fromPrm(a) && stopsOnDone(p, cal, j, depth+1) {
+					found = true
+				}
+			}
+		})
+	})
+	return found
 }
